@@ -74,6 +74,7 @@ type Result struct {
 	WallS        float64        `json:"wall_s"`
 	SampleLog    []string       `json:"sample_log,omitempty"`
 	SampleTrace  []int          `json:"sample_choices,omitempty"`
+	LogTails     map[string]int `json:"log_tails,omitempty"` // last log line of every execution (litmus outcome sets)
 	digests      map[uint64]struct{}
 	finals       map[uint64]struct{}
 }
@@ -223,6 +224,12 @@ func (e *explorer) explore(prefix []int, depth int) {
 	}
 	e.res.Outcomes[x.Outcome.String()]++
 	e.res.digests[fnv(x.Log)] = struct{}{}
+	if n := len(x.Log); n > 0 && len(e.res.LogTails) < 64 {
+		if e.res.LogTails == nil {
+			e.res.LogTails = map[string]int{}
+		}
+		e.res.LogTails[x.Log[n-1]]++
+	}
 	e.res.finals[x.FinalKey] = struct{}{}
 	choices := make([]int, len(x.Points))
 	for i := range x.Points {
@@ -352,6 +359,12 @@ func Merge(rs []*Result) *Result {
 		}
 		for k, v := range r.Outcomes {
 			out.Outcomes[k] += v
+		}
+		for k, v := range r.LogTails {
+			if out.LogTails == nil {
+				out.LogTails = map[string]int{}
+			}
+			out.LogTails[k] += v
 		}
 		if r.LogDigests > out.LogDigests {
 			out.LogDigests = r.LogDigests
